@@ -484,7 +484,7 @@ FACETS = {
     "verdict": {
         "strategy": verdict_case,
         "check": check_verdict,
-        "budget": {"quick": {"examples": 2400, "shards": 8}, "thorough": {"examples": 80000, "shards": 16}},
+        "budget": {"quick": {"examples": 2400, "shards": 8}, "thorough": {"examples": 48000, "shards": 16}},
         "nontrivial": "defect within two decades of atol, or boundary object",
         "min_nontrivial": 50,
     },
